@@ -115,7 +115,7 @@ def main():
             if pid == 0:
                 os.close(rfd)
                 try:
-                    r = run_one(path, data, 5)
+                    r = run_one(path, data, 30)
                     os.write(wfd, json.dumps(r).encode())
                 finally:
                     os._exit(0)
